@@ -51,8 +51,13 @@ def run_fault(case, chooser):
     spy = backends.SpyControl()
     if case.get("close_value") is not None:
         spy.close_value = case["close_value"]          # a backend whose close() returns something truthy
+    skw = dict(corpus.SERVER_KW)
+    if case.get("encoding"):
+        # the operating system's error text is localised and the server's encoding cannot represent it
+        skw["encoding"] = case["encoding"]
+        spy.fail_text = case["fail_text"]
     rig = Rig(chooser=chooser, n_sessions=2 if second else 1, tree=corpus.TREE, spy=spy, window=case.get("window", 65536),
-              server_kwargs=dict(corpus.SERVER_KW), backend=case["backend"])
+              server_kwargs=skw, backend=case["backend"])
     problems = []
     try:
         w = rig.world
@@ -293,6 +298,12 @@ def build_items(tier):
                     case = {"script": script, "backend": backend, "mode": "single", "k": k, "second": False,
                             "reuse_port": True}
                     items.append((case, bound, kinds))
+                # the failure carries the operating system's localised text, which the server's encoding cannot represent
+                if backend == "memory" and script in corpus.TRANSFER_SCRIPTS + ["dirs", "rename", "mlst"]:
+                    for enc in ("latin-1", "ascii"):
+                        case = {"script": script, "backend": backend, "mode": "single", "k": k, "second": False,
+                                "encoding": enc, "fail_text": "\u041e\u0448\u0438\u0431\u043a\u0430 \u0432\u0432\u043e\u0434\u0430/\u0432\u044b\u0432\u043e\u0434\u0430 \u2014 \u78c1\u76d8"}
+                        items.append((case, bound, kinds))
                 # a backend whose close() returns a value (the API leaves that open)
                 if backend == "memory" and script in corpus.TRANSFER_SCRIPTS + ["stor-over", "appe-new", "abor-mid-stor"]:
                     case = {"script": script, "backend": backend, "mode": "single", "k": k, "second": False,
